@@ -454,6 +454,21 @@ def oracle(inp, obs):
     tag = 'separate-target' if inp['separate'] else 'same-file'
     if obs['ref_error'] or obs['ref_status'] != [1] * inp['n'] or not obs['ref_results_ok']:
         fails.append('clean-run: the uninterrupted run did not complete correctly (%s)' % obs['ref_error'])
+    # the per-batch checkpoint: a completion mark may only be written once the result it vouches for has been flushed
+    # to the file that holds the results (otherwise "the last per-batch checkpoint" of the durability clause is empty
+    # and a kill loses marks and results alike)
+    resfile = 1 if inp['separate'] else 0
+    written, flushed = {}, set()
+    for e in obs['model_events']:
+        if e['e'] == 'w':
+            written[e['p']] = e['v']
+            flushed.discard(e['p'])
+        elif e['e'] == 'f' and e['f'] == resfile:
+            flushed.update(written.keys())
+        elif e['e'] == 'm' and e['p'] not in flushed:
+            fails.append('checkpoint-missing: the completion mark of position %d was written before its result was flushed '
+                         'to the results file (%s)' % (e['p'], tag))
+            break
     for rec in obs['crash']:
         if rec['error']:
             fails.append('crash-run-error: unexpected %s at crash index %d' % (rec['error'], rec['i']))
@@ -572,6 +587,8 @@ def model_compare(inp, obs, r):
     wf, mtrace = r[0], r[1]
     if not wf.get('wf'):
         out.append('observed trace is not accepted by WellFormed')
+    if not wf.get('strong'):
+        out.append('observed trace is not accepted by wfStrong (a mark written before its result was durable)')
     if _segs(obs['model_events']) != _segs(mtrace):
         out.append('observed event trace differs from the modelled compute trace')
     # survivors predicted by the crash model from the observed trace vs the real files
